@@ -13,7 +13,7 @@ _LIT = {'pow': POW}
 
 
 def xbar(x):
-    return 'u256_add(%s, u256_bits_and(%s, u256_sub(%s, SM2_ONE).0)).0' % (_LIT['pow'], x, _LIT['pow'])
+    return 'u256_add(%s, u256_bits_and(%s, arr:%s)).0' % (_LIT['pow'], x, hex(int(_LIT['pow'][4:], 16) - 1))
 
 
 def tag(v):
@@ -48,7 +48,7 @@ def k_xbar(cx, fn, P, cn):
             lits.add(s_[0])
             v = int(s_[0][4:], 16)
             inner = s_[1]
-            ok = v == 1 << W and ('u256_sub(%s, SM2_ONE).0' % s_[0]) in inner
+            ok = v == 1 << W and inner.endswith(', arr:%s)' % hex(v - 1))
             cx.add('K-XBAR', '%s@%d' % (last(fn.name), n), ok,
                    'x-bar = 2^w + (x & (2^w - 1)) with w = %d: literal is 2^%s' % (W, v.bit_length() - 1 if v and v & (v - 1) == 0 else hex(v)), G.where(fn, b))
     cx.floor('K-XBAR', last(fn.name) + '/sites', n, 2, 'x-bar computations in ' + last(fn.name))
